@@ -11,11 +11,16 @@
    only up to rounding; observed by tools/props/c16.py under a stated tolerance) - the "f32 partial" of the design. *)
 From Coq Require Import List Arith NArith ZArith QArith Bool Reals.
 From Similari Require Import Base.Num Model.Feature Proofs.FeatureProofs.
+From SimilariGen Require Import Consts.
 Import ListNotations.
 Close Scope Q_scope.
 Close Scope R_scope.
 
 (* ---- packing: every carrier, every length ---- *)
+
+(* the chunk size of the model (blocks are 8-tuples) is the constant translated from src/track.rs on every run *)
+Theorem lanes_is_eight : FEATURE_LANES_SIZE = 8%N /\ LANES = 8.
+Proof. split; reflexivity. Qed.
 
 (* from_vec followed by Vec::from_vec returns the values followed by zeros:
    pad 0 = 8 (the empty vector yields one all-zero block), pad n = (8 - n mod 8) mod 8 otherwise *)
